@@ -13,6 +13,7 @@ import GfsModel.Shared
 import GfsModel.Expected
 import GfsGen.Facts
 import GfsProofs.SharedLemmas
+import GfsModel.ExpectedSrc
 
 namespace Gfs.Props.C16
 open Gfs.Shared Gfs.Proofs
@@ -42,5 +43,10 @@ theorem C16_lazy_cache_racy :
       (run s sched).threads[1]? = some t' ∧ t'.todo = [] ∧
       ∃ t, s.threads[1]? = some t ∧ t'.seen ≠ alone s.mem t :=
   lazy_cache_racy
+
+/-- the declarations of /repo this property's model and specification were written from are,
+    on this run, the ones the model was last aligned with (digest of their comment- and
+    layout-insensitive fingerprints, re-extracted by tools/gofacts) -/
+theorem C16_source : Gfs.Gen.sourceDigestC16 = Gfs.expectedSourceDigestC16 := by decide
 
 end Gfs.Props.C16
